@@ -88,6 +88,8 @@ type ReplayFile struct {
 	Stack      []string          `json:"stack,omitempty"`
 	Sched      []string          `json:"sched,omitempty"`
 	Native     map[string]string `json:"native,omitempty"`
+	Preempt    int               `json:"preempt,omitempty"` // delay bound the decision vector was found under
+	Tier       string            `json:"tier,omitempty"`
 }
 
 type oblResult struct {
@@ -481,7 +483,7 @@ func cmdCheck(args []string) int {
 				rp := filepath.Join(replayDir, fmt.Sprintf("%s.%s.%d.json", *property, ob.ID, nrep))
 				rf := &ReplayFile{Property: *property, Obligation: ob.ID, Module: ob.Module, Pkg: ob.Pkg, Harness: ob.Harness, Models: ob.Models,
 					Params: r.params, Nondet: v.Nondet, Decisions: v.Decisions, Outcome: v.Kind, AssertID: v.AssertID, Site: v.Site, Msg: v.Msg,
-					Known: v.Known, Stack: v.Stack, Sched: v.Sched}
+					Known: v.Known, Stack: v.Stack, Sched: v.Sched, Preempt: ob.Preempt[*tier], Tier: *tier}
 				writeReplay(rp, rf)
 				reproduced := false
 				detail := ""
@@ -909,6 +911,33 @@ func cmdReplay(args []string) int {
 	if rep {
 		fmt.Printf("REPRODUCED %s %s %s\n", rf.Outcome, rf.AssertID, rf.Site)
 		return 1
+	}
+	// schedule-dependent or engine-observed counterexamples (goroutine schedules, data races, frame conditions):
+	// the authoritative replay is the deterministic re-execution of the decision vector in the engine
+	var checks map[string]PropertyChecks
+	if err := readJSON(filepath.Join(*root, "checks.json"), &checks); err == nil {
+		for _, ob := range checks[rf.Property].Obligations {
+			if ob.ID != rf.Obligation || !(ob.Sched || ob.NoNative || ob.MapOrder || ob.EngineReplay) {
+				continue
+			}
+			fn, herr := prog.Harness(pkgPath(m, rf.Pkg), rf.Harness)
+			if herr != nil {
+				break
+			}
+			cfg := sym.Config{Harness: fn, Params: rf.Params, Workers: 1, UnwindCap: ob.Unwind, Scheduler: ob.Sched,
+				MapOrderNondet: ob.MapOrder, KnownActive: map[string]bool{}, ConcLimit: ob.ConcLimit, StepLimit: ob.StepLimit, SolverName: ob.Solver}
+			cfg.MaxPreempt = rf.Preempt
+			cfg.Deadline = time.Now().Add(20 * time.Minute)
+			ex := sym.NewExplorer(prog.Prog, cfg)
+			vs, outcome := ex.Reexec(rf.Decisions)
+			for _, w := range vs {
+				if w.Kind == rf.Outcome && w.AssertID == rf.AssertID {
+					fmt.Printf("REPRODUCED (engine re-execution of the decision vector: %s) %s %s %s %s\n", outcome, rf.Outcome, rf.AssertID, rf.Site, w.Msg)
+					return 1
+				}
+			}
+			fmt.Println("engine re-execution:", outcome)
+		}
 	}
 	fmt.Println("NOT-REPRODUCED")
 	return 0
